@@ -73,6 +73,11 @@ def run(tier, out, model_ok, proof):
             b"JSIGHT 0.3\nGET /p" + o + b"q/{id} // ann " + o + b"\n  200 any\nURL /rpc" + o + b"\n  Protocol json-rpc-2.0\n  Method m" + o + b"x // " + o + b"\n    Params\n      {}\n"
             b"SERVER @s // srv " + o + b"\n  BaseUrl \"https://h/" + o + b"\"\nTAG @t // tag " + o + b"\n  Description\n    text " + o + b"\nINFO\n  Title \"T" + o + b"\"\n"))
     cases.append(treecorr.single_file_case("f9", b'JSIGHT 0.3\nURL /a/{id}\n  Path\n  {\n    "id": 1 // {min: 5}\n  }\n  GET\n    200 any\n'))
+    # documents with one injected rule fault: normally rejected; should a change make one ACCEPTED,
+    # the accepted catalog still has to serialise to well-formed JDoc Exchange JSON
+    C03 = importlib.import_module("checks.C03")
+    for k, (cls, d) in enumerate(C03.fault_docs(rng, 12 if big else 5)):
+        cases.append(treecorr.single_file_case("flt%d" % k, d))
     corp = corpus_files()
     for i, f in enumerate(corp if big else rng.sample(corp, 300)):
         d = open(f, "rb").read()
@@ -102,7 +107,7 @@ def run(tier, out, model_ok, proof):
     out.coverage.update({
         "evaluations": len(cases),
         "distinct_nontrivial": accepted,
-        "rule": "documents exercising empty/nested arrays and objects, scalars of every kind, type references, allOf/or/enum/optional rules, regex/any/empty notations, unreferenced tags, JSON-RPC params/results; structured documents; corpus files and their mutations; for every ACCEPTED build: ToJson succeeds, is valid UTF-8, ToJsonIndent agrees up to whitespace (compared by the harness), and the parsed document satisfies the JDoc Exchange shape predicate (lib/jsoninv.py); non-trivial = accepted",
+        "rule": "documents exercising empty/nested arrays and objects, scalars of every kind, type references, allOf/or/enum/optional rules, regex/any/empty notations, unreferenced tags, JSON-RPC params/results; structured documents; corpus files and their mutations; documents with one injected rule fault of each of the classes of C03 (if ever accepted); for every ACCEPTED build: ToJson succeeds, is valid UTF-8, ToJsonIndent agrees up to whitespace (compared by the harness), and the parsed document satisfies the JDoc Exchange shape predicate (lib/jsoninv.py); non-trivial = accepted",
         "samples": [bytes.fromhex(cases[0]["files"]["root.jst"]).decode("latin1")[:300]],
         "exhaustive": False,
     })
